@@ -60,6 +60,11 @@ CHECKS["C07"] = ("model_checking",
     "The real _path/path code (stopping, histories, best-weights bookkeeping, restore) is driven on subclasses of the real sparse estimators whose numerics are scripted: every epoch consumes one environment answer; ALL scripts with a bounded total number of deviations (configuration arguments incl. out-of-range values + non-default answers among the first 8 epochs) are executed and judged by a reference of the documented contract (equal-length histories, alpha growth, recorded counts/penalties, stopping at min_features unless NaN, best weights = last step within keep_threshold of the best all-features score, restore iff requested and not dynamic, warnings for replaced arguments, termination). The same reference judges real path() runs of the 5 sparse estimators over a configuration grid.",
     "The early-stopping rule inside a step is observed, not predicted (only the documented bounds on epochs per step are asserted).",
     "5/C07")
+CHECKS["C06"] = ("exploration",
+    "bounded-exhaustive enumeration of sparse configurations (all set partitions of the features as groups) with a monitor on every optimiser step and every path observation point of the real estimators",
+    "5 sparse estimators x GEMINIs x alpha x M x {no groups, ALL 15 set partitions of 4 features, partial lists} x batch size x dynamic x {fit, path}: after every optimiser step the weights left by _update_weights must be a minimiser of the C05 reference problem with threshold alpha*optimiser.learning_rate applied to the post-step snapshot (other blocks untouched); after fit, at every validation call of the path and after restoration get_selection must equal the exactly-non-zero rows, unselected features must be bitwise inert under perturbation (and have zero first-layer rows), groups must be all-in/all-out and groups_ the declared list completed by singletons.",
+    "d=4, n=8; the dynamic empty-selection crash (KF-C07-1) is skipped here and reported by C07.",
+    "5/C06")
 NOT_APPLICABLE = {}
 
 def main():
